@@ -85,11 +85,44 @@ func c04StreamAndLoop(ctx *core.Ctx, r *RT, enc *ssa.Function) {
 	isCopyOf := func(idx int) ssax.Pred {
 		return func(in ssa.Instruction) bool {
 			c, ok := ssax.AsCall(in)
-			if !ok || c.FullName() != "builtin.copy" && c.FullName() != "copy" {
+			if !ok || c.FullName() != "builtin.copy" && c.FullName() != "copy" || len(c.Args()) < 2 {
 				return false
 			}
 			e, ok := ssax.Strip(c.Args()[1]).(*ssa.Extract)
 			return ok && e.Tuple == ssa.Value(nx) && e.Index == idx
+		}
+	}
+	// … or a helper that is handed the name / value and copies it on every path
+	direct := isCopyOf
+	isCopyOf = func(idx int) ssax.Pred {
+		d := direct(idx)
+		return func(in ssa.Instruction) bool {
+			if d(in) {
+				return true
+			}
+			c, ok := in.(*ssa.Call)
+			if !ok {
+				return false
+			}
+			g := c.Call.StaticCallee()
+			if g == nil || g.Pkg != enc.Pkg || len(g.Blocks) == 0 || !codecHelper(g) {
+				return false
+			}
+			for i, a := range c.Call.Args {
+				e, isE := ssax.Strip(a).(*ssa.Extract)
+				if !isE || e.Tuple != ssa.Value(nx) || e.Index != idx || i >= len(g.Params) {
+					continue
+				}
+				q := g.Params[i]
+				copies := func(in2 ssa.Instruction) bool {
+					c2, ok := ssax.AsCall(in2)
+					return ok && c2.FullName() == "builtin.copy" && ssax.Strip(c2.Args()[1]) == ssa.Value(q)
+				}
+				if ssax.PathFrom(g, nil, ssax.IsReturn, copies) == nil {
+					return true
+				}
+			}
+			return false
 		}
 	}
 	back := func(in ssa.Instruction) bool { return in == ssa.Instruction(nx) || ssax.IsReturn(in) }
